@@ -414,6 +414,8 @@ pub fn c11_families(tier: &str) -> Vec<Family> {
     v.push(fam(US, 3, "wtiny", &ORD_ONE));
     v.push(fam(DS, 3, "wtiny", &ORD_ONE));
     v.push(fam(US, 4, "whuge", &ORD_ONE));
+    v.push(fam(US, 4, "wspan", &ORD_ONE));
+    v.push(fam(DS, 3, "wspan", &ORD_ONE));
     if tier == "quick" {
         for n in 0..=3 {
             for k in kinds_all() {
